@@ -60,7 +60,7 @@ class Item:
         env.globals.update(g["env"])
         h = env.get_template("h", globals=g["h"])
         if C._fields(self.case).get("target") == "lit-warm" and not env.is_async:
-            str(h.module)
+            h.module  # creates and caches the default module
         bound = {}
         for k, v in self.data.items():
             if isinstance(v, C.TemplateRef):
